@@ -33,13 +33,13 @@ Qed.
 Definition ev_wf (e : event) : Prop :=
   match e with
   | ESendClose _ (Some r) => wf_utf8 r = true
-  | EPeerClose _ txt | EPeerClose1 txt | EPeerViolation txt | EPeerInvalid txt => wf_utf8 txt = true
+  | EPeerClose _ txt | EPeerClose1 txt | EPeerViolation txt | EPeerInvalid txt | EConnectRaises txt => wf_utf8 txt = true
   | _ => True
   end.
 
 Lemma internal_codes_allowed :
   close_code_invalid code_protocol_error = false /\ close_code_invalid code_invalid_payload = false
-  /\ close_code_invalid code_normal = false.
+  /\ close_code_invalid code_normal = false /\ close_code_invalid code_onconnect_failed = false.
 Proof. vm_compute. auto. Qed.
 
 (* an interval of codes that lies inside one accepted interval is accepted *)
@@ -115,7 +115,7 @@ Ltac solve_reason :=
 
 Ltac leaf_legal :=
   intros log s HG HI; unfold I_legal, remote_ok in *; guard_facts; simpl in *;
-  destruct internal_codes_allowed as (? & ? & ?);
+  destruct internal_codes_allowed as (? & ? & ? & ?);
   repeat match goal with
   | H : match ?code with Some cd => negb (api_code_ok cd) | None => false end = false |- _ =>
       destruct code eqn:?; [apply negb_false_iff in H|clear H]
